@@ -275,6 +275,57 @@ def batching(B, G, kind, N, bs, nbs, epochs=2, form="tensor"):
             if sorted(seen) != list(range(N)):
                 ok, detail = False, "positive batches cover rows %s" % sorted(seen)
             G.fact("epoch%d.pairing_partition_negsource" % e, ok, detail)
+    if with_bases:
+        # history: a second fit of the SAME model with the SAME bases object but OTHER data: its negative-phase chains start from the
+        # reference-basis rows of the data given now, and its rows are paired with their own bases
+        off = 200
+        rows2 = [[float(off + i), float(off + 100 + i)] for i in range(N)]
+        if form == "tensor":
+            data2 = B.tensor(np.array(rows2, dtype=object if B.symbolic else float))
+        elif form == "ndarray":
+            data2 = np.array(rows2, dtype=float)
+        else:
+            data2 = [list(r) for r in rows2]
+        nb0 = len(batches)
+        st.fit(data2, **dict(kw, epochs=1))
+        eb = batches[nb0:]
+        G.fact("second_fit.batch_count", len(eb) == nb_expected, "%d batches" % len(eb))
+        if B.symbolic:
+            viol = []
+            for (smp, neg, bb) in eb:
+                na = neg.a
+                for r in range(na.shape[0]):
+                    t = tagz(na[r, 0])
+                    viol.append(z3.Not(z3.Or([t == i + off for i in zrows])) if zrows else z3.BoolVal(True))
+                sa = smp.a
+                for r in range(sa.shape[0]):
+                    if r < len(bb):
+                        viol.append(tagz(bb[r, 0]) != tagz(sa[r, 0]) - off)
+            s = z3.Solver()
+            s.set("timeout", 120000)
+            s.add(*cons)
+            s.add(z3.Or(viol) if viol else z3.BoolVal(False))
+            t1 = time.time()
+            res = _solve._chk(s)
+            cex = None
+            if res == "sat":
+                m = s.model()
+                cex = {str(p): float(m.eval(p, model_completion=True).as_long()) for _, ps in draws for p in ps}
+            G.solver_goal("second_fit.pairing_negsource", res, time.time() - t1, cex=cex, detail="second fit on the same model")
+        else:
+            ok, detail = True, ""
+            for (smp, neg, bb) in eb:
+                na = B.scalars(neg)
+                for r in range(na.shape[0]):
+                    t = int(round(float(na[r, 0])))
+                    if t - off not in zrows:
+                        ok, detail = False, "second fit: negative-phase row %d is not a reference-basis row of the data given to THIS fit" % t
+                sa = B.scalars(smp)
+                for r in range(sa.shape[0]):
+                    t = int(round(float(sa[r, 0]))) - off
+                    if r < len(bb) and (t < 0 or t >= N or tuple(bb[r]) != letters[t]):
+                        ok, detail = False, "second fit: row %d paired with basis %s" % (t, tuple(bb[r]))
+            G.fact("second_fit.pairing_negsource", ok, detail)
     if B.symbolic:
         # vacuity twin: the constraints on the index variables are satisfiable, and a wrong claim (row 0 is always first) is refuted
         s = z3.Solver()
@@ -295,6 +346,12 @@ def batching(B, G, kind, N, bs, nbs, epochs=2, form="tensor"):
 
 def jobs(tier):
     J = []
+    # how many chains a batch really starts is decided inside compute_batch_gradients (replaced by a recorder in `batching`): the
+    # update-rule scenario of C06 runs the real one and counts the scripted Gibbs draws per batch
+    d3 = [[0, 1], [1, 1], [1, 0]]
+    for nm, kw_ in (("chains-per-batch-positive-bs1-neg3", dict(kind="positive", n=2, h=2, a=None, data=d3, bases=None, bs=1, nbs=3, k=1)),
+                    ("chains-per-batch-complex-bs2-negdefault", dict(kind="complex", n=2, h=1, a=None, data=d3, bases=["ZZ", "XZ", "ZZ"], bs=2, nbs=None, k=1))):
+        J.append(dict(name=nm, module="checks.c06", scenario="cd_step", kwargs=kw_, opts=dict(env_range=0.75, var_ranges=[["lr", 0.05, 0.5]], timeout_ms=120000)))
     Ns = range(1, 6) if tier == "quick" else range(1, 8)
     k = 0
     for N in Ns:
